@@ -20,7 +20,7 @@ OFSs  == { <<MINUS>>, <<>> } \cup (IF Rich THEN { <<SP>>, <<COMMA, SP>> } ELSE {
 
 \* numeric spellings: n is the integer AWK truncates the source text to
 IdxSpell == { [n |-> 0 - 1, src |-> "-1"], [n |-> 0, src |-> "0"], [n |-> 1, src |-> "1"], [n |-> 2, src |-> "2"],
-              [n |-> 3, src |-> "3"], [n |-> 5, src |-> "NF+2"], [n |-> 2, src |-> "2.7"],
+              [n |-> 3, src |-> "3"], [n |-> 5, src |-> "NF+2"], [n |-> 2, src |-> "2.7"], [n |-> 0 - 4, src |-> "-4"],
               [n |-> MaxField + 1, src |-> "1000001"] }
             \cup (IF Rich THEN { [n |-> 0 - 2, src |-> "-2"], [n |-> 1, src |-> "\"1x\""], [n |-> 0, src |-> "-0.5"],
                                  [n |-> 1, src |-> "1.5"] } ELSE {})
@@ -39,7 +39,7 @@ Menu(rc) ==
   \cup {[op |-> "setom", md |-> m1] : m1 \in {"default", "csv"} \cup (IF Rich THEN {"tsv"} ELSE {})}
   \cup {[op |-> "getf", k |-> (IF sp.src = "NF+2" THEN RecNF(rc) + 2 ELSE sp.n), src |-> sp.src] : sp \in {q \in IdxSpell : q.n <= MaxField}}
   \cup {[op |-> "getnf"]}
-  \cup {[op |-> "incr", k |-> k1] : k1 \in {1, 2}}
+  \cup {[op |-> "incr", k |-> k1] : k1 \in {1, 2, 0 - 1, 0 - 4}}
 
 VARIABLES rec, h
 vars == <<rec, h>>
@@ -52,7 +52,8 @@ Next ==
   /\ \E act \in Menu(rec) :
        /\ Enabled(rec, act, MaxNF)
        /\ rec' = Apply(rec, act)
-       /\ h' = Append(h, [act |-> act, obs |-> RecObs(rec'), read |-> ReadValue(rec, act), err |-> rec'.err])
+       /\ h' = Append(h, [act |-> act, obs |-> RecObs(rec'), read |-> ReadValue(rec, act), err |-> rec'.err,
+                           lenient |-> NegOutOfRange(rec, act)])
        /\ (Len(h') = Depth \/ rec'.err) => PrintT(ToJson([fam |-> "record", steps |-> h']))
 
 Spec == Init /\ [][Next]_vars
